@@ -61,6 +61,15 @@ def run_history(plan, plugins):
         mark, imark = len(host.calls), len(host.import_log)
         r = w.run(["-p", "@/D", "-a", "-E"] + extra, order=plan["order"])
         ops.append({"kind": "a", "res": r, "calls": host.calls[mark:], "imports": host.import_log[imark:]})
+        if plan["skip_plugins"]:
+            # the summary / look-up / json modes decode too: with -P they must not touch a parser module either
+            some = plan["pels"][0]["recipe"]
+            for argv in (["-l", "-E"], ["--plid", "%08X" % some["plid"]], ["--src", "B"], ["-n", "-E"], ["-i", "%08X" % some["eid"]],
+                         ["--bmc-id", str(some["bmc_id"])], ["-j", "-o", "@/OUT", "-E"]):
+                mark, imark = len(host.calls), len(host.import_log)
+                w.mkdir("OUT")
+                r = w.run(["-p", "@/D"] + argv + extra, order=plan["order"])
+                ops.append({"kind": "other", "res": r, "calls": host.calls[mark:], "imports": host.import_log[imark:]})
         loaded = sorted(m for m in sys.modules if m.startswith(("udparsers.", "srcparsers.", "calloutparsers.")))
         # direct unit-level probe of the shipped I/O drawer plugin: always a JSON object
         m2, m2f = [], []
@@ -154,6 +163,8 @@ def execute(plan):
                 vio.append(V("import-with-plugins-disabled", "%s imported %s" % (r.argv, bad_imports[:4])))
             if op["calls"]:
                 vio.append(V("call-with-plugins-disabled", "%s called %s" % (r.argv, [(c[0], c[1]) for c in op["calls"][:4]])))
+        if op["kind"] == "other":
+            continue
         # ---- calls: right module, right data, exactly once per section
         pels = [op["pel"]] if op["kind"] == "f" else sorted(plan["pels"], key=lambda p: p["name"])
         exp = []
